@@ -52,6 +52,17 @@ SNIPPETS = [
     ("mismatched_targets", "def f(x):\n    a = 1\n    b = 2\n    if x > 0:\n        a = 10\n    else:\n        b = 20\n    return a + b\n"),
     ("two_statements", "def f(x):\n    if x > 0:\n        a = 1\n        b = 2\n    else:\n        a = 0\n        b = 0\n    return a + b\n"),
     ("return_without_else", "def f(x):\n    if x > 0:\n        return 1\n    return 0\n"),
+    # conditions used through truthiness (a count or an amount), Boolean literals in the branches, results used in arithmetic afterwards
+    ("bool_literals_if_truthy", "def f(x, y):\n    if x:\n        flag = True\n    else:\n        flag = False\n    return flag * y + 1.0\n"),
+    ("bool_literals_ifexp_truthy", "def f(x, y):\n    flag = True if x else False\n    return flag * 100.0 + y\n"),
+    ("bool_literals_negated", "def f(x, y):\n    flag = False if x else True\n    return flag * 100.0 + y\n"),
+    ("bool_literals_comparison", "def f(x, y):\n    flag = True if x > y else False\n    return flag * 7.0\n"),
+    ("truthy_condition_values", "def f(x, y):\n    return y if x else -y\n"),
+    ("int_literals_truthy", "def f(x, y):\n    k = 2 if x else 3\n    return k * y\n"),
+    ("bool_return_branches", "def f(x):\n    if x > 1:\n        return True\n    else:\n        return False\n"),
+    ("chained_comparison", "def f(x):\n    return 1.0 if 0 < x <= 4 else 0.0\n"),
+    ("nested_ifexp", "def f(x, y):\n    return (x if x > y else y) if x > 0 else (0.0 if y > 0 else -1.0)\n"),
+    ("not_truthy", "def f(x, y):\n    out = y if not x else 0.0\n    return out\n"),
 ]
 
 
